@@ -1,6 +1,7 @@
 import Driver.Proto
 import SpsdkVerif.Model.Mboot
 import SpsdkVerif.Model.Sdp
+import SpsdkVerif.Model.MbootProps
 open SpsdkVerif Driver
 open SpsdkVerif.Mboot
 
@@ -138,7 +139,34 @@ def parseSdpOp : List String → Option Sdp.Op
   | ["sdps_write_file", nc, ps, d] => do pure (.sdpsWriteFile (← parseBool nc) (← ps.toNat?) (← parseHex d))
   | _ => none
 
+def optStr : Option Nat → String
+  | some v => toString v
+  | none => "-"
+
+def pvalStr (tag : Nat) : Except PyErr MbootProps.PVal → String
+  | .error e => e.tag
+  | .ok (.version v) => s!"ver:{optStr v.mark}:{v.major}:{v.minor}:{v.fixation}:{v.toInt}"
+  | .ok (.word v) =>
+    if tag = 7 then s!"word:{v}|tags:" ++ joinOr ";" "-" ((MbootProps.commandTagsOf MbootProps.allCommandTags v).map toString)
+    else if tag = 2 then s!"word:{v}|per:" ++ joinOr ";" "-" ((MbootProps.peripheralsOf MbootProps.allPeripheryTags v).map toString)
+    else if tag = 28 then s!"word:{v}|irq:{v % 256}:{v / 256 % 256}:{boolStr (v.testBit 31)}"
+    else s!"word:{v}"
+  | .ok (.bool v t) => s!"bool:{v}:{boolStr t}"
+  | .ok (.regions r) => "regions:" ++ joinOr "," "-" (r.map (fun (q : Nat × Nat) => s!"{q.1}-{q.2}"))
+  | .ok (.uid b) => "uid:" ++ hx b
+  | .ok (.extMem e) => s!"ext:{e.value}:{optStr e.start}:{optStr e.totalSize}:{optStr e.pageSize}:{optStr e.sectorSize}:{optStr e.blockSize}"
+  | .ok (.fuses f) => "fuses:" ++ joinOr "," "-" (f.map (fun (q : Nat × Bool) => s!"{q.1}={if q.2 then 1 else 0}"))
+  | .ok (.words l) => "words:" ++ joinOr ";" "-" (l.map toString)
+
 def stepLine (st : St) : List String → St × String
+  | ["propval", tag, raw] =>
+    match tag.toNat?, parseNats raw with
+    | some tag, some raw => (st, pvalStr tag (MbootProps.parseProperty tag raw))
+    | _, _ => (st, "bad-op")
+  | ["verle", a, b] =>
+    match a.toNat?, b.toNat? with
+    | some a, some b => (st, boolStr ((MbootProps.Version.fromInt a).le (MbootProps.Version.fromInt b)))
+    | _, _ => (st, "bad-op")
   | ["sdp_cfg", ce, tr] =>
     match parseBool ce with
     | some ce => ({ st with shost := { ce, tr := if tr == "hid" then .hid else .serial } }, "ok")
